@@ -55,11 +55,20 @@ def orders_for(r, units, tier):
     return out, False
 
 
+def do_run(prep, o=None):
+    """one pass; `o` is None (sequential), a completion order of the units, or {"lookup_latency": seconds, "order": …}
+    (the kind-discovery call takes that long).  Plural discovery is made cold before every pass."""
+    wf_run.cool_lookups(prep)
+    if isinstance(o, dict):
+        return wf_run.run_prepared(prep, order=o.get("order"), lookup_latency=o["lookup_latency"])
+    return wf_run.run_prepared(prep, order=o)
+
+
 def sweep(case, prep, orders):
     """[(order, obs)] — the sequential pass first (order None)"""
     runs = [(None, wf_run.run_prepared(prep))]
     for o in orders:
-        runs.append((o, wf_run.run_prepared(prep, order=o)))
+        runs.append((o, do_run(prep, o)))
     return runs
 
 
@@ -106,15 +115,17 @@ def prepare_and_base(case):
     prep = wf_run.prepare_case(case)
     if prep.problems:
         raise Infra(f"generated definitions rejected by prepare: {prep.problems[:2]}")
-    return prep, wf_run.run_prepared(prep)
+    return prep, do_run(prep)
 
 
-def check_case(ck, drv, r, case, tier, tag, prep=None, base=None):
+def check_case(ck, drv, r, case, tier, tag, prep=None, base=None, extra=()):
     if prep is None:
         prep, base = prepare_and_base(case)
     units = base["units"]
     orders, full = orders_for(r, units, tier)
-    runs = [(None, base)] + [(o, wf_run.run_prepared(prep, order=o)) for o in orders]
+    orders = list(orders) + [dict(x, order=(list(reversed(units)) if x.get("order") == "reversed" else None))
+                             for x in extra]
+    runs = [(None, base)] + [(o, do_run(prep, o)) for o in orders]
     ck.evaluated(len(runs))
     ck.count(f"units:{min(len(units), 9)}")
     ck.count(f"src:{tag}")
@@ -143,15 +154,16 @@ def check_case(ck, drv, r, case, tier, tag, prep=None, base=None):
             p = wf_run.prepare_case(c)
             if p.problems:
                 return False
-            b = wf_run.run_prepared(p)
-            os_ = [x for x in ([o] if o else []) if set(x) == set(b["units"])] or orders_for(rng("shrink"), b["units"], "quick")[0]
-            return bool(order_oracle(c, [(None, b)] + [(x, wf_run.run_prepared(p, order=x)) for x in os_], limit, p))
+            b = do_run(p)
+            os_ = [x for x in ([o] if o else []) if isinstance(x, dict) or set(x) == set(b["units"])] \
+                or orders_for(rng("shrink"), b["units"], "quick")[0]
+            return bool(order_oracle(c, [(None, b)] + [(x, do_run(p, x)) for x in os_], limit, p))
         small = c01.shrink(case, fails) if len(ck.violations) < 3 else case
         if small is not case:       # name an order of the *small* case under which it fails
             try:
                 p2, b2 = prepare_and_base(small)
-                os2 = ([o] if o and set(o) == set(b2["units"]) else []) + orders_for(rng("shrink"), b2["units"], "thorough")[0][:120]
-                bad2 = order_oracle(small, [(None, b2)] + [(x, wf_run.run_prepared(p2, order=x)) for x in os2], limit, p2)
+                os2 = ([o] if o and (isinstance(o, dict) or set(o) == set(b2["units"])) else []) + orders_for(rng("shrink"), b2["units"], "thorough")[0][:120]
+                bad2 = order_oracle(small, [(None, b2)] + [(x, do_run(p2, x)) for x in os2], limit, p2)
                 if bad2:
                     o, what = bad2[0]
             except Infra:
@@ -201,7 +213,8 @@ def run(tier: str) -> int:
         "are outside the functional model: covered by the completion-order sweep only",
     ]
     ck.assumptions = [
-        "API calls succeed and answer below STEP_TIMEOUT (fault-free pass); latencies are virtual",
+        "API calls — reads, mutations and the kind-discovery call — succeed and answer below STEP_TIMEOUT (fault-free "
+        "pass); latencies are virtual",
         "the outcome of every Function depends only on its inputs and on cluster objects no other unit of the pass "
         "mutates (each reference site owns its resource names; forEach items over mutating Functions are distinct)",
         "expressions range over the generator's shapes; workflows are those prepare_workflow accepts",
@@ -227,6 +240,19 @@ def run(tier: str) -> int:
         rr = rng("c02-race")
         for i in range(25 if tier == "quick" else 250):
             check_case(ck, drv, rr, gen_wf.gen_race_case(rr), tier, "racing-non-ok-dependencies")
+        # targeted (second round): slow kind discovery (below the step time-out), one kind word / namespace / name in
+        # two API groups, a forEach refSwitch whose switchOn reads steps.*
+        rl = rng("c02-lookup")
+        slow = [{"lookup_latency": 3.5}, {"lookup_latency": 6.0}, {"lookup_latency": 9.0},
+                {"lookup_latency": 4.0, "order": "reversed"}]
+        for i in range(15 if tier == "quick" else 150):
+            check_case(ck, drv, rl, gen_wf.gen_lookup_case(rl), tier, "slow-kind-discovery", extra=slow)
+        rg = rng("c02-groups")
+        for i in range(20 if tier == "quick" else 200):
+            check_case(ck, drv, rg, gen_wf.gen_group_collision_case(rg), tier, "same-kind-word-two-groups")
+        rs = rng("c02-fe-switch")
+        for i in range(15 if tier == "quick" else 150):
+            check_case(ck, drv, rs, gen_wf.gen_foreach_switch_steps_case(rs), tier, "forEach-switch-on-steps")
     except Infra as e:
         if "driver" not in str(e):
             raise
@@ -246,9 +272,9 @@ def run(tier: str) -> int:
         for i in range(120):
             c = gen_case(rr)
             p = wf_run.prepare_case(c)
-            b = wf_run.run_prepared(p)
+            b = do_run(p)
             orders = orders_for(rr, b["units"], "thorough")[0]
-            runs = [(None, b)] + [(o, wf_run.run_prepared(p, order=o)) for o in orders[:60]]
+            runs = [(None, b)] + [(o, do_run(p, o)) for o in orders[:60]]
             ck.evaluated(len(runs))
             bad = order_oracle(c, runs, limit, p)
             if bad:
@@ -271,11 +297,10 @@ def replay(path: str) -> int:
     items = data.get("violations") or [{"case": d.get("case")} for d in data.get("no_longer_checks", []) if d.get("case")]
     for v in items:
         case, order = v["case"]["case"], v["case"].get("order")
-        prep = wf_run.prepare_case(case)
-        base = wf_run.run_prepared(prep)
+        prep, base = prepare_and_base(case)
         orders = [order] if order and set(order) == set(base["units"]) else []
         orders += orders_for(rng("replay"), base["units"], "thorough")[0][:120]
-        runs = [(None, base)] + [(o, wf_run.run_prepared(prep, order=o)) for o in orders]
+        runs = [(None, base)] + [(o, do_run(prep, o)) for o in orders]
         bad = order_oracle(case, runs, limit, prep)
         print("replay:", json.dumps({"steps": [s["label"] for s in gen_wf.main_steps(case)], "units": base["units"]}),
               "::", bad[:1])
